@@ -4,6 +4,7 @@ from unit import Unit
 import os
 MAXLEN = int(os.environ.get('VERIF_XML_MAXLEN', str(1 << 47)))   # harness assumption: the text is at most 2^47 bytes (x86-64 user address space)
 EXC = "EXC_std_runtime_error"
+GUARD = ["--unwind", "3", "--unwinding-assertions"]   # loops under contract are gone after instrumentation; this only bounds residual library loops (assertion-checked)
 CADICAL = ["--sat-solver", "cadical"]   # minisat needs >11 min on parseNode at 4096 bytes; cadical 45 s
 HELPERS = """
 char *g_buf, *g_end;   /* ghost: first byte of the text buffer, and the address of its NUL terminator */
@@ -48,7 +49,7 @@ def units():
     U.fn("x_skipWhites", pre_call=buffer(), requires=BUFOK + [VALID], assigns=["*$0"],
          loops={1: dict(assigns=["*s"], invariant=[LV("*s"), "__CPROVER_POINTER_OFFSET(*s) >= __CPROVER_POINTER_OFFSET(__CPROVER_loop_entry(*s))"], decreases=DIST("*s"))},
          ensures=dict(CUR_OK, never_moves_backwards="__CPROVER_POINTER_OFFSET(*$0) >= __CPROVER_POINTER_OFFSET(OLD(*$0))", stops_on_non_white="!(**$0 == ' ' || **$0 == '\\t' || **$0 == '\\n' || **$0 == '\\r')"))
-    U.fn("x_consumeComment", pre_call=buffer(), requires=BUFOK + [VALID], assigns=["*$0"],
+    U.fn("x_consumeComment", solver=CADICAL, flags=GUARD, pre_call=buffer(), requires=BUFOK + [VALID], assigns=["*$0"],
          loops={1: dict(assigns=["*s"], invariant=[LV("*s"), "__verif_exc == 0", "__CPROVER_POINTER_OFFSET(*s) >= __CPROVER_POINTER_OFFSET(__CPROVER_loop_entry(*s))"], decreases=DIST("*s"))},
          ensures=dict(CUR_OK, a_comment_consumes_at_least_five_bytes="IMP(__verif_exc == 0, __CPROVER_POINTER_OFFSET(*$0) >= __CPROVER_POINTER_OFFSET(OLD(*$0)) + 5)"))
     U.fn("x_skipComment", pre_call=buffer(), requires=BUFOK + [VALID], assigns=["*$0"], ensures=dict(CUR_OK,
@@ -60,11 +61,11 @@ def units():
   unsigned long in_b = nondet_unsigned_long(), in_e = nondet_unsigned_long(); __CPROVER_assume(in_b <= in_len && in_e <= in_len);
   p_begin = g_buf + in_b; p_end = g_buf + in_e;
 """ % MAXLEN
-    U.fn("x_makeString", pre_call=two, arrays={"begin": 1, "end": 1}, ptr_requires=False, requires=BUFOK + [LV("$0"), LV("$1")], assigns=[], ensures={
+    U.fn("x_makeString", solver=CADICAL, flags=GUARD, pre_call=two, arrays={"begin": 1, "end": 1}, ptr_requires=False, requires=BUFOK + [LV("$0"), LV("$1")], assigns=[], ensures={
         "makeString_reads_only_begin_to_end_and_throws_on_reversed_range": "(__verif_exc != 0) == (__CPROVER_POINTER_OFFSET($0) > __CPROVER_POINTER_OFFSET($1))",
         "only_runtime_error_escapes": "__verif_exc == 0 || __verif_exc == %s" % EXC})
     quoted = buffer() + "  __CPROVER_assume(*o_@0 == '\"' || *o_@0 == '\\'');\n"
-    U.fn("x_parseString", pre_call=quoted, requires=BUFOK + [VALID, "**$0 == '\"' || **$0 == '\\''"], assigns=["*$0", "*$1"],
+    U.fn("x_parseString", solver=CADICAL, flags=GUARD, pre_call=quoted, requires=BUFOK + [VALID, "**$0 == '\"' || **$0 == '\\''"], assigns=["*$0", "*$1"],
          loops={1: dict(assigns=["*s"], invariant=[LV("*s"), "__verif_exc == 0"], decreases=DIST("*s")),
                 2: dict(assigns=["*s"], invariant=[LV("*s"), "__verif_exc == 0"], decreases=DIST("*s"))},
          ensures=dict(CUR_OK, string_parsing_consumes_at_least_the_quotes="IMP(__verif_exc == 0, __CPROVER_POINTER_OFFSET(*$0) >= __CPROVER_POINTER_OFFSET(OLD(*$0)) + 2)"))
